@@ -75,6 +75,24 @@ func checkC16(c Node) Verdict {
 	}
 	desc := fmt.Sprintf("SanitizeSQL(%q, %q)", tpl, args)
 	v := Verdict{OK: true, SQL: desc, Sig: sig, Execs: 1, Nontrivial: len(sig) > 1}
+	if b := seq(c["before"]); len(b) > 0 {
+		// an earlier call in the same process, on a template that leaves the lexer in the middle of something
+		btpl := cpsToString(c["before"])
+		sig = append(sig, "history")
+		desc = fmt.Sprintf("SanitizeSQL(%q, X) ; ", btpl) + desc
+		bgot, berr, bpan := sanitizeSafe(btpl, []any{"X"})
+		if bpan != nil {
+			return fail("panic", desc, sig, "the earlier call panics: %v", bpan)
+		}
+		wb := seq(c["outbefore"])
+		if len(wb) == 1 && num(wb[0]) == -9 {
+			if berr == nil {
+				return fail("noerror", desc, sig, "the earlier call: specification error, got %q", bgot)
+			}
+		} else if berr != nil || bgot != cpsToString(c["outbefore"]) {
+			return fail("text", desc, sig, "the earlier call: want %q got %q (%v)", cpsToString(c["outbefore"]), bgot, berr)
+		}
+	}
 	got, err, pan := sanitizeSafe(tpl, args)
 	if pan != nil {
 		return fail("panic", desc, sig, "panic: %v", pan)
@@ -143,6 +161,10 @@ func checkC16(c Node) Verdict {
 		}
 	case 4:
 		if len(out.Rows) != 1 || !Equal(out.Rows[0], map[string]any{"q": "it's $1", "v": arg1}) {
+			return fail("echo", desc, sig, "%q returns %s", got, Canon(any(out.Rows)))
+		}
+	case 7, 8:
+		if len(out.Rows) != 1 || !Equal(out.Rows[0], map[string]any{"a": arg1}) {
 			return fail("echo", desc, sig, "%q returns %s", got, Canon(any(out.Rows)))
 		}
 	case 5:
